@@ -237,8 +237,10 @@ End ExecSide.
    master registers (station CASched of the pipeline model handles them as any
    other task; this is what really happens to them) ----
    RP.Relay.Model: work / _schedule_incoming / control_cb(register_raptor_queue,
-   unregister_raptor_queue, cancel_tasks) as a state machine over the scheduler
-   queue, the registered queues and the backlog.  All statements are about
+   unregister_raptor_queue, cancel_tasks; for a cancel request preceded by
+   BaseComponent._control_cb, which registers the uids on the cancel list) as a
+   state machine over the scheduler queue, the registered queues, the backlog,
+   the cancel list and the set of unregistered names.  All statements are about
    EVERY history of operations. *)
 Module RelaySide.
 Import RP.Relay.Model RP.Relay.Oracle RP.Relay.Proofs RP.Relay.History RP.Relay.OracleProofs.
@@ -278,18 +280,21 @@ Proof. exact no_forward_after_final. Qed.
 Print Assumptions C05_relay_no_forward_after_final.
 
 (* in every reachable state the keys of both dicts are unique, a registered
-   name has no backlog, and no wildcard backlog exists while a queue is
-   registered: nobody waits for a master that is there *)
+   name has no backlog, no wildcard backlog exists while a queue is
+   registered, and a name that has unregistered has neither backlog nor queue:
+   nobody waits for a master that is there, nobody for one that has gone *)
 Theorem C05_relay_nobody_waits_for_a_registered_master :
   forall ops s e, run init ops = (s, e) ->
     NoDup (map fst (backlog s)) /\ NoDup (map fst (queues s)) /\
     (forall n, alook n (queues s) <> None -> alook n (backlog s) = None) /\
-    (queues s <> [] -> alook star (backlog s) = None).
+    (queues s <> [] -> alook star (backlog s) = None) /\
+    (forall n, In n (gone s) -> alook n (backlog s) = None /\ alook n (queues s) = None).
 Proof. exact reachable_spec. Qed.
 Print Assumptions C05_relay_nobody_waits_for_a_registered_master.
 
 (* Register: the complete backlog of the name, then that of the wildcard, go
-   to the new queue; nothing of them is left behind; the rest is untouched *)
+   to the new queue; nothing of them is left behind; the rest is untouched; the
+   name is no longer gone *)
 Theorem C05_relay_register_relays_all :
   forall ops s0 e0 n q, run init ops = (s0, e0) ->
     let '(s', e) := step s0 (Register n q) in
@@ -298,12 +303,14 @@ Theorem C05_relay_register_relays_all :
     /\ backlog s' = without [n; star] (backlog s0)
     /\ alook n (backlog s') = None /\ alook star (backlog s') = None
     /\ (forall k, k <> n -> k <> star -> alook k (backlog s') = alook k (backlog s0))
-    /\ inq s' = inq s0 /\ alook n (queues s') = Some q.
+    /\ inq s' = inq s0 /\ alook n (queues s') = Some q
+    /\ gone s' = gdel n (gone s0) /\ clist s' = clist s0.
 Proof. exact register_relays_all_hist. Qed.
 Print Assumptions C05_relay_register_relays_all.
 
 (* Unregister: exactly the backlog of that name fails (FAILED, 'raptor gone'),
-   in order; name and backlog are forgotten; an unknown name adds a warning *)
+   in order; name and backlog are forgotten and the name is remembered as gone;
+   an unknown name adds a warning *)
 Theorem C05_relay_unregister_fails_exactly :
   forall ops s0 e0 n, run init ops = (s0, e0) ->
     let '(s', e) := step s0 (Unregister n) in
@@ -311,36 +318,55 @@ Theorem C05_relay_unregister_fails_exactly :
     /\ backlog s' = without [n] (backlog s0) /\ queues s' = without [n] (queues s0)
     /\ alook n (backlog s') = None /\ alook n (queues s') = None
     /\ (forall k, k <> n -> alook k (backlog s') = alook k (backlog s0))
-    /\ inq s' = inq s0.
+    /\ inq s' = inq s0 /\ gone s' = gadd n (gone s0) /\ clist s' = clist s0.
 Proof. exact unregister_fails_exactly_hist. Qed.
 Print Assumptions C05_relay_unregister_fails_exactly.
 
-(* "reaches a final state while its pilot is alive" is FALSE for a task that
-   arrives for a master after that master unregistered: it is kept in a new
-   backlog (witness: master 1 registers and unregisters, task 7 for master 1
-   arrives and is drained) ... *)
-Theorem C05_relay_gone_master_backlog_refuted :
-  exists ops n u s e,
-    run init ops = (s, e) /\ gone n ops false = true /\ In u (key_list n (backlog s)) /\ n_arr u ops = 1%nat.
-Proof. exact gone_master_backlog_refuted. Qed.
-Print Assumptions C05_relay_gone_master_backlog_refuted.
+(* "reaches a final state while its pilot is alive", masters that have gone:
+   for every history, if the last registration event of name n is an
+   unregistration, nothing waits for n (and n is not registered) ... *)
+Theorem C05_relay_no_wait_for_gone_master :
+  forall ops n s e, run init ops = (s, e) -> gone_hist n ops false = true ->
+    alook n (backlog s) = None /\ alook n (queues s) = None.
+Proof. exact no_wait_for_gone_master. Qed.
+Print Assumptions C05_relay_no_wait_for_gone_master.
 
-(* ... and it stays there whatever else arrives, is drained, registers or
-   unregisters, until that very name registers or unregisters again or a
-   request names the task *)
-Theorem C05_relay_waits_until_registered_again :
+(* ... because the next drain fails what arrives for it: a drain handles under
+   name n exactly the raptor tasks for n on the scheduler queue, in order
+   (C05_relay_drain_sorts_by_name), and what it has collected for a name that
+   has unregistered (the wildcard: while no queue is registered) is failed
+   ('raptor gone') -- tasks named by a cancel request are canceled instead --
+   and nothing is kept for it (C05_relay_gone_group_fails) *)
+Theorem C05_relay_drain_sorts_by_name :
+  forall n ts, alook n (collect ts) = match for_name n ts with [] => None | l => Some l end.
+Proof. exact drain_sorts_by_name. Qed.
+Print Assumptions C05_relay_drain_sorts_by_name.
+
+Theorem C05_relay_gone_group_fails :
+  forall qs gn bl cl n us,
+    alook n qs = None -> zmem n gn = true -> (is_nil qs || negb (n =? star)) = true ->
+    fwd_group qs gn bl cl n us = let '(k, cl', o0) := sift cl us in (bl, cl', o0 ++ map OFail k).
+Proof. exact gone_group_fails. Qed.
+Print Assumptions C05_relay_gone_group_fails.
+
+(* what still waits waits for a master that has never registered nor
+   unregistered (the wildcard: for any master, while none is registered) ... *)
+Theorem C05_relay_waits_only_for_unknown_master :
+  forall ops n s e, run init ops = (s, e) -> alook n (backlog s) <> None -> touched n ops = false.
+Proof. exact waits_only_for_unknown_master. Qed.
+Print Assumptions C05_relay_waits_only_for_unknown_master.
+
+(* ... and for those the statement stays PARTIAL: such a task keeps waiting,
+   whatever else arrives, is drained, registers or unregisters, until that very
+   name registers (it is relayed) or unregisters (it is failed) or a request
+   names it (it is canceled).  That the master named by the application comes
+   is the application's part. *)
+Theorem C05_relay_waits_until_registered_partial :
   forall ops s s' e n l,
     run s ops = (s', e) -> forallb (leaves_alone n) ops = true -> n <> star ->
     alook n (backlog s) = Some l -> exists l', alook n (backlog s') = Some (l ++ l').
 Proof. exact waits_until_registered_again. Qed.
-Print Assumptions C05_relay_waits_until_registered_again.
-
-(* what holds of it: right after the unregistration nothing waits for the name *)
-Theorem C05_relay_gone_master_partial :
-  forall ops n s e, run init (ops ++ [Unregister n]) = (s, e) ->
-    alook n (backlog s) = None /\ alook n (queues s) = None.
-Proof. exact unregistered_has_no_backlog. Qed.
-Print Assumptions C05_relay_gone_master_partial.
+Print Assumptions C05_relay_waits_until_registered_partial.
 
 (* the clauses evaluated on the traces of the real code hold of the model's
    trace of every history *)
@@ -351,12 +377,14 @@ Print Assumptions C05_relay_clauses_hold_in_model.
 
 (* non-vacuity: wildcard tasks wait, the first master gets them, a second
    master and a re-registration get nothing; a named task for a master that
-   never comes waits; seen tasks and workers are scheduled here *)
+   never comes waits; seen tasks and workers are scheduled here; after master 2
+   unregistered a task for it is failed by the next drain *)
 Example C05_relay_nonvacuous :
   let t u n := mkT u (Some n) false false in
   run init [Arrive [t 1 0; t 2 0; t 3 5; mkT 4 (Some 1) true false; mkT 5 (Some 1) false true]; Drain;
-            Register 1 1; Register 2 2; Register 1 3; Arrive [t 6 0; t 7 0; t 8 0]; Drain; Unregister 5]
-  = (mkS [] [(1, 3); (2, 2)] [],
-     [OSched [4; 5]; OPut 1 [1; 2]; OPut1 3 6; OPut1 2 7; OPut1 3 8; OWarn 5; OFail 3]).
+            Register 1 1; Register 2 2; Register 1 3; Arrive [t 6 0; t 7 0; t 8 0]; Drain; Unregister 5;
+            Unregister 2; Arrive [t 9 2; t 10 1]; Drain]
+  = (mkS [] [(1, 3)] [] [] [5; 2],
+     [OSched [4; 5]; OPut 1 [1; 2]; OPut1 3 6; OPut1 2 7; OPut1 3 8; OWarn 5; OFail 3; OFail 9; OPut 3 [10]]).
 Proof. vm_compute. reflexivity. Qed.
 End RelaySide.
